@@ -351,6 +351,103 @@ func runHostileMode() {
 			k++
 		}
 	}
+	// every byte of the variable header (schema descriptor: struct count and per-struct field counts;
+	// user data) of uncompressed streams WITH a descriptor set to 0, to 1 and decremented, the frame
+	// size kept right: a descriptor that claims a struct has no fields (or fewer than the reader
+	// builds decoders for) must end in an error or in records, never in a panic. Streams of a few
+	// dozen records, so that every column holds enough bytes for the bit readers' wide refill.
+	var descBases []base
+	for i := 0; len(descBases) < 6 && i < 100; i++ {
+		root := roots[i%2]
+		o := wopts{flags: pkg.FrameFlags(r.Intn(8)), desc: true}
+		cfg := &recgen.Cfg{NoBigLens: true, MaxCalls: 20, NoFrozen: r.Bool(), DictResets: o.flags&pkg.RestartDictionaries != 0, DictHeavy: i%3 == 0}
+		_, res := generate(r, root, o, cfg, genParams{writes: 30 + r.Intn(30), maxMut: 3, flushProb: 0})
+		if res.werr != "" || len(res.stream) > 40000 {
+			continue
+		}
+		ps := parseStream(res.stream)
+		if ps.err != nil || ps.zstd || len(ps.frames) < 2 {
+			continue
+		}
+		descBases = append(descBases, base{root, res.stream, ps, o})
+	}
+	// two hand-built streams in which the resource, the scope and the metric / span identity change
+	// in EVERY record, so that the columns of the dictionary structs are long
+	for _, rootName := range []string{"Metrics", "Spans"} {
+		buf := &pkg.MemChunkWriter{}
+		var werr error
+		if rootName == "Metrics" {
+			w, err := otelstef.NewMetricsWriter(buf, pkg.WriterOptions{IncludeDescriptor: true})
+			werr = err
+			for i := 0; werr == nil && i < 40; i++ {
+				res := w.Record.Resource()
+				res.SetSchemaURL(fmt.Sprintf("https://example.com/schema/%d", i))
+				res.SetDroppedAttributesCount(uint64(i*7 + 1))
+				res.Attributes().EnsureLen(1)
+				res.Attributes().SetKey(0, fmt.Sprintf("key%d", i))
+				res.Attributes().Value(0).SetInt64(int64(i))
+				w.Record.Scope().SetName(fmt.Sprintf("scope%d", i))
+				w.Record.Scope().SetDroppedAttributesCount(uint64(i + 1))
+				w.Record.Metric().SetName(fmt.Sprintf("metric%d", i))
+				w.Record.Metric().SetUnit(fmt.Sprintf("u%d", i))
+				w.Record.Point().SetTimestamp(uint64(1000 + i))
+				w.Record.Point().Value().SetInt64(int64(i))
+				werr = w.Write()
+			}
+			if werr == nil {
+				werr = w.Flush()
+			}
+		} else {
+			w, err := otelstef.NewSpansWriter(buf, pkg.WriterOptions{IncludeDescriptor: true})
+			werr = err
+			for i := 0; werr == nil && i < 40; i++ {
+				res := w.Record.Resource()
+				res.SetSchemaURL(fmt.Sprintf("https://example.com/schema/%d", i))
+				res.SetDroppedAttributesCount(uint64(i*7 + 1))
+				res.Attributes().EnsureLen(1)
+				res.Attributes().SetKey(0, fmt.Sprintf("key%d", i))
+				res.Attributes().Value(0).SetInt64(int64(i))
+				w.Record.Scope().SetName(fmt.Sprintf("scope%d", i))
+				w.Record.Scope().SetDroppedAttributesCount(uint64(i + 1))
+				w.Record.Span().SetName(fmt.Sprintf("span%d", i))
+				w.Record.Span().SetStartTimeUnixNano(uint64(1000 + i))
+				werr = w.Write()
+			}
+			if werr == nil {
+				werr = w.Flush()
+			}
+		}
+		if werr != nil {
+			propFail("C03 hostile-base-writer-error root=%s %v", rootName, werr)
+			continue
+		}
+		ps := parseStream(buf.Bytes())
+		for _, rt := range roots {
+			if rt.name == rootName && ps.err == nil {
+				descBases = append(descBases, base{rt, append([]byte(nil), buf.Bytes()...), ps, wopts{desc: true}})
+			}
+		}
+	}
+	for _, b := range descBases {
+		stats["descriptor-byte-bases"]++
+		f := b.ps.frames[0]
+		for pos := range f.content {
+			for _, nv := range []int{0, 1, int(f.content[pos]) - 1} {
+				if nv < 0 || byte(nv) == f.content[pos] {
+					continue
+				}
+				nc := append([]byte(nil), f.content...)
+				nc[pos] = byte(nv)
+				in := append([]byte(nil), b.stream[:f.start]...)
+				in = append(in, f.flags)
+				in = binary.AppendUvarint(in, uint64(len(nc)))
+				in = append(in, nc...)
+				in = append(in, b.stream[f.end:]...)
+				evalInput(k, b, in, "varheader-byte-lowered")
+				k++
+			}
+		}
+	}
 	bigArrayCases()
 }
 
